@@ -37,7 +37,7 @@ META = {
 
 FAMS = ["loader"]
 MC_INVS = ["DepthBound", "StepBound", "PcOk", "PropertyOnModel", "OpenedAtMostOnce", "OpensInMayOpen",
-           "ImplMeetsRef", "OutcomeSound", "RunFnSame"]
+           "ImplMeetsRef", "OutcomeSound"]
 MC_PROPS = ["Terminates"]
 NSHARD = 12
 
@@ -49,7 +49,7 @@ def case_of(o):
 def judge(ctx, step, obs_list):
     """Run Trace_Loader over the observations (sharded, shards in parallel). Returns (bads, drifts)."""
     n = len(obs_list)
-    nsh = max(1, min(NSHARD, n // 1500))
+    nsh = max(1, min(NSHARD, n // 4000))
     size = (n + nsh - 1) // nsh if n else 1
     parts = [obs_list[k:k + size] for k in range(0, max(n, 1), size)]
 
@@ -124,10 +124,11 @@ def run(ctx, only_cases=None):
         # 1. model check + export of the case space
         consts = {"Tier": ctx.pick(1, 2)}
         wd = ctx.stage("mc", FAMS)
-        rig.write_cfg(wd / "MC_Loader.cfg", spec="Spec", constants=consts, invariants=MC_INVS, properties=MC_PROPS)
+        invs = MC_INVS + ctx.pick([], ["RunFnSame"])     # functional form of the model == the actions (thorough)
+        rig.write_cfg(wd / "MC_Loader.cfg", spec="Spec", constants=consts, invariants=invs, properties=MC_PROPS)
         r = ctx.tlc(wd, "MC_Loader", workers=rig.NCPU, timeout=1500, coverage=not ctx.quick)
         ctx.cov.update(states=r.distinct, transitions=r.generated, mc_wall_s=round(r.wall, 1),
-                       mc_invariants=MC_INVS + MC_PROPS, bounds="Tier=%d (families of MC_Loader.tla)" % consts["Tier"])
+                       mc_invariants=invs + MC_PROPS, bounds="Tier=%d (families of MC_Loader.tla)" % consts["Tier"])
         if not r.ok:
             if r.invariant_violated or r.property_violated:
                 ctx.cov["model_counterexample"] = {"invariants": r.invariant_violated or ["temporal"],
@@ -140,12 +141,14 @@ def run(ctx, only_cases=None):
             raise Infra("no cases.ndjson exported by MC_Loader")
         shutil.copy(wd / "cases.ndjson", cases)
         extra = ctx.pick(1500, 30000)
+        ctx.cov["extra_random_cases"] = extra
     else:
         rig.write_ndjson(cases, only_cases)
         extra = 0
     # 2. replay into the real code (recording fs.FS, then FormatFS)
     obs = ctx.work / "obs.ndjson"
-    ctx.drive("c18", cases, obs, args=["-extra", str(extra)])
+    # quick: the FormatFS pass for every 3rd case; thorough and replay: for all
+    ctx.drive("c18", cases, obs, args=["-extra", str(extra), "-fmtmod", str(ctx.pick(3, 1) if only_cases is None else 1)])
     allobs = rig.read_ndjson(obs)
     ncases = len({o["id"] for o in allobs})
     # 3. judge
